@@ -24,6 +24,16 @@ def run(ck):
         while c["kind"] != "dyadic" or c["place"] == "origin":
             c = cc.gen_tissue(r2)
         cases.insert(0, c)
+    # tissues in contact placed metres from the origin (10^6 cell sizes): whatever the broad phase stores at reduced precision no
+    # longer resolves a cut-off there (own stream)
+    rng_v = random.Random(ck.seed * 4447 + 7); nv = 0
+    while nv < (6 if ck.tier == "quick" else 60):
+        c = cc.gen_tissue(rng_v)
+        if c["kind"] not in ("row", "cluster", "overlap", "ecm"):
+            continue
+        sh = (1e6 * cc.R * rng_v.choice([-1, 1]), 2e6 * cc.R * rng_v.choice([-1, 1]), 0.5e6 * cc.R)
+        c["cells"] = [([[q[k] + sh[k] for k in range(3)] for q in n_], f_) for n_, f_ in c["cells"]]; c["place"] = "metres_away"; c["pre_merges"] = 0
+        cases.append(c); nv += 1
     outs, crashes = cc.run_cases(cases, contact=1, san=True)
     fails = []; broken = []; nontriv = 0; dist = {}
     cinfo = dict(crashes)
